@@ -105,12 +105,17 @@ def seeded_hdap(kind, R):
     def octets(n):
         return bytes(R.choice([0, 0xFF, 0x80, 0xC3, 0xD8, 0x41, R.getrandbits(8)]) for _ in range(n))
 
+    def text16(n):
+        """n UTF-16 code units as octets, drawn from the values text handling trips over: byte order marks, NUL, surrogates, line ends"""
+        pool = [0xFEFF, 0xFFFE, 0x0000, 0x0041, 0x0020, 0x000A, 0x000D, 0x00E1, 0x20AC, 0xD83D, 0xDE00, 0xFFFF, 0x0301]
+        return b"".join((R.choice(pool) if R.random() < 0.6 else R.getrandbits(16)).to_bytes(2, "little") for _ in range(n))
+
     rel = R.random() < 0.5
     if kind == "hrnp-tmp":
         op = R.choice([TMPService.SendPrivateMessage, TMPService.SendGroupMessage])
         return TextMessageProtocol(opcode=op, is_reliable=rel, is_confirmed=R.random() < 0.5, request_id=R.choice([0, 1, 0xFFFFFFFF, R.getrandbits(32)]),
                                    destination_ip=RadioIP(radio_id=R.choice([1, 0xFFFFFF, R.getrandbits(24)])), source_ip=RadioIP(radio_id=R.choice([1, R.getrandbits(24)])),
-                                   text_data=octets(R.choice([0, 1, 2, 3, 8, 9, 40])))
+                                   text_data=octets(R.choice([0, 1, 2, 3, 8, 9, 40])) if R.random() < 0.5 else text16(R.choice([1, 2, 3, 7, 20])))
     O = rcp.RCPOpcode
     ids = lambda: R.choice([0, 1, 0xFFFFFF, R.getrandbits(24), R.getrandbits(32)])
     ct = lambda: R.choice(list(rcp.RCPCallType))
@@ -595,6 +600,14 @@ class C04(Check):
                     pats = pats + [("burst", pp) for s0, pp in sorted(crafted.items()) if pp]
                     res.probe("clean_word_syndrome_differs_from_kind_constant")
                     res.fault("crafted_burst", len(crafted))
+        if "ops" not in case:
+            # sentinel values of the check field itself: the corruption that leaves the received check field all-zero / all-ones (a checker
+            # that treats such a value as "absent" or "wildcard" then accepts the word).  Confined to the check field, so within every code's
+            # burst guarantee; non-codewords are re-checked by the guard below
+            zero_p = tuple(i for i in chk if wire[i])
+            ones_p = tuple(i for i in chk if not wire[i])
+            pats = pats + [("burst", pp) for pp in (zero_p, ones_p) if pp]
+            res.fault("check_field_sentinel_pattern", bool(zero_p) + bool(ones_p))
         dropped = 0
         for pn, (cls, p) in enumerate(pats):
             if co and pn == len(pats) // 2:
